@@ -167,6 +167,29 @@ func RunSched(c *Ctx, sc *vrt.Scenario, _ func(v *vrt.Violation) string) *Report
 	if os.Getenv("VERIF_NOPRUNE") != "" {
 		e.NoPrune = true
 	}
+	if n, _ := strconv.Atoi(os.Getenv("VERIF_AUDIT")); n > 0 {
+		// race audit (supporting, never deciding): the same harness body runs free, n times, in a
+		// binary built with -race; oracle outcomes are ignored, only the detector's reports matter
+		rep.Engine = "race-audit"
+		for i := 0; i < n; i++ {
+			done := make(chan struct{})
+			go func() {
+				defer close(done)
+				defer func() { recover() }()
+				sc.Main()
+			}()
+			select {
+			case <-done:
+				rep.Executions++
+			case <-time.After(20 * time.Second):
+				rep.Notes = append(rep.Notes, "free-running body did not finish within 20 s (not judged)")
+				i = n
+			}
+		}
+		rep.States, rep.Transitions = 1, 1
+		rep.Samples = append(rep.Samples, "free-running")
+		return rep
+	}
 	if c.Replay != nil {
 		vrt.SetSharedSites(c.Replay.Sites)
 		r, clause := e.Replay(c.Replay.Choices)
